@@ -73,7 +73,7 @@ class Core:
     """one generated Lean file: a set of methods reachable from each other"""
 
     def __init__(self, repo, name, sources, ignore=(), effects=None, observers=(), pure=None, records=None, links=None,
-                 consts=None, attr_effects=(), doc="", heap=False, opaque=None, oracles=None, ignore_targets=(), ignore_calls=(), observers_args=()):
+                 consts=None, attr_effects=(), doc="", heap=False, opaque=None, oracles=None, ignore_targets=(), ignore_calls=(), observers_args=(), lists=None):
         self.repo = repo
         self.name = name
         self.sources = sources  # list of (relative file, class name, [method names])
@@ -97,6 +97,10 @@ class Core:
         # and its target name is tainted; assignments computed from tainted names are dropped too; any other use is refused
         self.ignore_calls = [re.compile(p) for p in ignore_calls]
         self.observers_args = set(observers_args)
+        # object lists a `for` may run over (heap mode): "self.<path>" -> {"calls": {"[0].matches": "<world name>"}}; the fields of
+        # the elements are environment keys (`Py.ikey`), the calls on them opaque calls into the world with the index first
+        self.lists = lists or {}
+        self.loopn = 0
         self.P = "Py.H." if heap else "Py."          # statement combinators
         self.EV = " env" if heap else ""             # the environment argument of the combinators
         self.XE = "ext env" if heap else "env"       # what a translated function gets first
@@ -171,6 +175,10 @@ class Core:
         seen = seen | {key}
         res = False
         for node in ast.walk(self.methods[key]):
+            if isinstance(node, ast.Call) and isinstance(node.func, ast.Attribute) and isinstance(node.func.value, ast.Subscript):
+                res = True      # (a call on an element of an object list is a call into the world)
+            if isinstance(node, ast.Assign) and any(isinstance(t, ast.Subscript) for t in node.targets):
+                res = True
             if isinstance(node, ast.Call):
                 d = dotted(node.func)
                 if d is not None and (d in self.effects or d in self.opaque):
@@ -220,6 +228,62 @@ class Core:
             return tcls, call.func.attr, obj
         return None
 
+    # ---------------------------------------------------------------- loops over object lists
+    def elem_call(self, e, ctx):
+        """(world name, [argument texts]) when `e` is `<loop element>[k].<method>(...)` of a configured object list"""
+        if not (isinstance(e, ast.Call) and isinstance(e.func, ast.Attribute) and isinstance(e.func.value, ast.Subscript)):
+            return None
+        sub = e.func.value
+        if not (isinstance(sub.value, ast.Name) and sub.value.id in ctx.get("elems", {}) and isinstance(sub.slice, ast.Constant)
+                and isinstance(sub.slice.value, int)):
+            return None
+        full, lst, idx = ctx["elems"][sub.value.id]
+        key = f"[{sub.slice.value}].{e.func.attr}"
+        calls = self.lists[lst].get("calls", {})
+        if key not in calls:
+            raise Untranslatable(f"call of {key} on an element of {lst} is not configured")
+        args = [f"(Py.V.int {idx})"] + [self.expr(a, ctx) for a in e.args] + [self.expr(kw.value, ctx) for kw in e.keywords]
+        return calls[key], args
+
+    def first_elem_call(self, test, ctx):
+        """the element call a condition evaluates first, if any: `call`, `not call`, `call <op> …`"""
+        if self.elem_call(test, ctx) is not None:
+            return test
+        if isinstance(test, ast.UnaryOp) and isinstance(test.op, ast.Not) and self.elem_call(test.operand, ctx) is not None:
+            return test.operand
+        if isinstance(test, ast.Compare) and self.elem_call(test.left, ctx) is not None:
+            return test.left
+        return None
+
+    def hoist(self, value, ctx, pad):
+        """the element call `value` evaluates first becomes an opaque call made before the statement; its value is a temporary"""
+        import copy
+        v2 = copy.deepcopy(value)
+        callnode = self.first_elem_call(v2, ctx)
+        wname, args = self.elem_call(callnode, ctx)
+        self.jp += 1
+        tmp = f"t_call{self.jp}"
+
+        class Sub(ast.NodeTransformer):
+            def visit_Call(self2, node):
+                return ast.copy_location(ast.Name(id=tmp, ctx=ast.Load()), node) if node is callnode else self2.generic_visit(node)
+        v2 = Sub().visit(v2)
+        ast.fix_missing_locations(v2)
+        inner = dict(ctx)
+        inner["temps"] = set(ctx.get("temps", ())) | {tmp}
+        return pad + f"Py.H.call ext {lean_str(wname)} [{', '.join(args)}] env effs fun {tmp} env effs =>\n", v2, inner
+
+    def only_dropped(self, stmts):
+        for st in stmts:
+            if isinstance(st, ast.Pass):
+                continue
+            if isinstance(st, ast.Expr) and isinstance(st.value, ast.Call):
+                d = dotted(st.value.func) or ast.unparse(st.value.func)
+                if any(p.search(d) for p in self.ignore):
+                    continue
+            return False
+        return True
+
     # ---------------------------------------------------------------- expressions
     def expr(self, e, ctx):
         cls, m, prefix, locs = ctx["cls"], ctx["m"], ctx["prefix"], ctx["locals"]
@@ -243,6 +307,10 @@ class Core:
         if isinstance(e, ast.Name):
             if e.id in ctx.get("tainted", ()):
                 raise Untranslatable(f"{where()}: use of {e.id}, a value the core's configuration leaves out")
+            if e.id in ctx.get("elems", {}):
+                raise Untranslatable(f"{where()}: the loop element {e.id} used as a value")
+            if e.id in ctx.get("temps", ()):
+                return e.id
             if e.id in locs:
                 return "v_" + e.id
             if e.id in self.consts:
@@ -287,6 +355,10 @@ class Core:
             if isinstance(e.value, ast.Name) and e.value.id in ctx["records"] and isinstance(e.slice, ast.Constant) \
                     and isinstance(e.slice.value, str):
                 return f"(r_{e.value.id} {lean_str(e.slice.value)})"
+            if isinstance(e.value, ast.Name) and e.value.id in ctx.get("elems", {}) and isinstance(e.slice, ast.Constant) \
+                    and isinstance(e.slice.value, int):
+                full, _, idx = ctx["elems"][e.value.id]
+                return f"(env (Py.ikey {lean_str(full)} {idx} {lean_str('[%d]' % e.slice.value)}))"
             raise Untranslatable(f"{where()}: subscript")
         if isinstance(e, ast.Attribute):
             d = dotted(e)
@@ -301,6 +373,8 @@ class Core:
             raise Untranslatable(f"{where()}: attribute {d}")
         if isinstance(e, ast.List):
             items = []
+            if not e.elts:
+                return "(Py.V.strs [])"
             for x in e.elts:
                 c = self.const_lookup(dotted(x)) if dotted(x) else (("const", x.value) if isinstance(x, ast.Constant) else None)
                 c = c[1] if isinstance(c, tuple) else None
@@ -318,6 +392,8 @@ class Core:
         if isinstance(e, ast.Call):
             d = dotted(e.func)
             if d is None:
+                if self.elem_call(e, ctx) is not None:
+                    raise Untranslatable(f"{where()}: a call on a loop element where it cannot be evaluated first")
                 raise Untranslatable(f"{where()}: call of a computed function")
             if d in self.observers_args and d.startswith("self") and not e.keywords:
                 # a question to the object's surroundings with constant arguments: one environment key per argument list
@@ -393,6 +469,7 @@ class Core:
                 raise Untranslatable(f"{tcls}.{tm}: argument {kw.arg}")
             given[kw.arg] = kw.value
         args = []
+        elem_params = {}
         recs = self.records.get((tcls, tm), set())
         for name in pos + kwonly:
             if name in given:
@@ -406,14 +483,21 @@ class Core:
                     args.append("r_" + node.id)
                 else:
                     raise Untranslatable(f"{tcls}.{tm}: record argument {name} is not a record parameter")
+            elif isinstance(node, ast.Name) and node.id in ctx.get("elems", {}):
+                # the loop element handed to a helper: the helper gets the index of the element
+                if obj != "self":
+                    raise Untranslatable(f"{tcls}.{tm}: a loop element handed to another object")
+                full, lst, idx = ctx["elems"][node.id]
+                elem_params[name] = (full, lst)
+                args.append(idx)
             else:
                 if not isinstance(node, (ast.Name, ast.Constant)) and not (isinstance(node, ast.Attribute) and (dotted(node) or "").startswith("self.")):
                     # Python evaluates arguments before the call; a name or a constant cannot raise there
                     raise Untranslatable(f"{tcls}.{tm}: argument {name} of a translated call is not a name or a constant")
                 args.append(self.expr(node, ctx))
         new_prefix = ctx["prefix"] + obj[4:]
-        self.translate(tcls, tm, new_prefix)
-        return " ".join([self.lean_name(tcls, tm, new_prefix), self.XE] + args)
+        name = self.translate(tcls, tm, new_prefix, elem_params)
+        return " ".join([name, self.XE] + args)
 
     # ---------------------------------------------------------------- statements
     def assigned(self, stmts):
@@ -442,6 +526,20 @@ class Core:
             return self.block(rest, k, ctx, ind)
         if isinstance(s, ast.Expr) and isinstance(s.value, ast.Constant) and isinstance(s.value.value, str):
             return self.block(rest, k, ctx, ind)
+        if isinstance(s, ast.Return) and s.value is not None and self.elem_call(s.value, ctx) is None \
+                and self.first_elem_call(s.value, ctx) is not None:
+            pre, val2, inner = self.hoist(s.value, ctx, pad)
+            news = ast.copy_location(ast.Return(value=val2), s)
+            return pre + self.block([news] + rest, k, inner, ind)
+        if isinstance(s, ast.Return) and s.value is not None and self.elem_call(s.value, ctx) is not None:
+            wname, args = self.elem_call(s.value, ctx)
+            return pad + f"Py.H.call ext {lean_str(wname)} [{', '.join(args)}] env effs fun t_ret env effs =>\n" + pad + f"{P}ret t_ret{EV} effs"
+        if isinstance(s, ast.Assign) and len(s.targets) == 1 and self.elem_call(s.value, ctx) is None \
+                and self.first_elem_call(s.value, ctx) is not None:
+            pre, val2, inner = self.hoist(s.value, ctx, pad)
+            news = ast.copy_location(ast.Assign(targets=s.targets, value=val2), s)
+            ast.fix_missing_locations(news)
+            return pre + self.block([news] + rest, k, inner, ind)
         if isinstance(s, ast.Return):
             if s.value is None:
                 return pad + f"{P}ret Py.V.none{EV} effs"
@@ -460,6 +558,46 @@ class Core:
             if name is None:
                 raise Untranslatable(f"{where()}: raise without a class")
             return pad + f"{P}Res.raised {lean_str(name.split('.')[-1])}{EV} effs"
+        if isinstance(s, (ast.Break, ast.Continue)):
+            if "loop" not in ctx:
+                raise Untranslatable(f"{where()}: {type(s).__name__} outside a translated loop")
+            carried = ", ".join(f"v_{v}" for v in ctx["loop"])
+            return pad + f"{'brk' if isinstance(s, ast.Break) else 'next'} [{carried}] env effs"
+        if isinstance(s, ast.For):
+            if not s.orelse and self.only_dropped(s.body):
+                return self.block(rest, k, ctx, ind)        # a loop that only logs
+            if not self.heap or s.orelse:
+                raise Untranslatable(f"{where()}: for loop (only loops over a configured object list, in heap mode, without else)")
+            it, idxname = s.iter, None
+            if isinstance(it, ast.Call) and dotted(it.func) == "enumerate" and len(it.args) == 1 and not it.keywords \
+                    and isinstance(s.target, ast.Tuple) and len(s.target.elts) == 2 and all(isinstance(x, ast.Name) for x in s.target.elts):
+                idxname, elname, lst = s.target.elts[0].id, s.target.elts[1].id, dotted(it.args[0])
+            elif isinstance(s.target, ast.Name):
+                elname, lst = s.target.id, dotted(it)
+            else:
+                raise Untranslatable(f"{where()}: for loop target")
+            if lst not in self.lists:
+                raise Untranslatable(f"{where()}: for loop over {lst or ast.unparse(it)}, which is not a configured object list")
+            full = ctx["prefix"] + lst[4:]
+            self.loopn += 1
+            idx = f"idx{self.loopn}"
+            carried = [v for v in self.assigned(s.body) if v not in (idxname, elname)]
+            for node in ast.walk(s):
+                if isinstance(node, ast.Name) and isinstance(node.ctx, ast.Store) and node.id in (idxname, elname) and node is not s.target \
+                        and node not in getattr(s.target, "elts", []):
+                    raise Untranslatable(f"{where()}: the loop variable {node.id} is assigned in the loop")
+            inner = dict(ctx)
+            inner["elems"] = dict(ctx.get("elems", {}), **{elname: (full, lst, idx)})
+            inner["loop"] = carried
+            unpack = "".join(pad + f"  let v_{v} := Py.nth locs {i}\n" for i, v in enumerate(carried))
+            lst_txt = ", ".join(f"v_{v}" for v in carried)
+            body = self.block(list(s.body), f"next [{lst_txt}] env effs", inner, ind + 1)
+            ctx.setdefault("tainted", set()).update(x for x in (idxname, elname) if x)
+            after = self.block(rest, k, ctx, ind + 1)
+            bind_i = pad + f"  let v_{idxname} := Py.V.int {idx}\n" if idxname else ""
+            return (pad + f"Py.H.forRange (env {lean_str('len(' + full + ')')}) [{lst_txt}] env effs (fun {idx} locs env effs next brk =>\n"
+                    + bind_i + unpack + body + ")\n"
+                    + pad + "  (fun locs env effs =>\n" + unpack + after + ")")
         if isinstance(s, (ast.Assign, ast.AugAssign)):
             if isinstance(s, ast.AugAssign):
                 if not isinstance(s.op, (ast.Add, ast.Sub)):
@@ -478,6 +616,15 @@ class Core:
                 if isinstance(t, ast.Name):
                     ctx.setdefault("tainted", set()).add(t.id)
                 return self.block(rest, k, ctx, ind)       # bookkeeping the core's configuration leaves out (timers)
+            if isinstance(t, ast.Subscript) and isinstance(t.value, ast.Name) and t.value.id in ctx.get("elems", {}) \
+                    and isinstance(t.slice, ast.Constant) and isinstance(t.slice.value, int) and isinstance(s, ast.Assign):
+                full, _, idx = ctx["elems"][t.value.id]
+                return (pad + f"Py.H.setattr (Py.ikey {lean_str(full)} {idx} {lean_str('[%d]' % t.slice.value)}) {self.expr(value, ctx)} env effs fun env effs =>\n"
+                        + self.block(rest, k, ctx, ind))
+            if isinstance(t, ast.Name) and self.elem_call(value, ctx) is not None:
+                wname, args = self.elem_call(value, ctx)
+                return (pad + f"Py.H.call ext {lean_str(wname)} [{', '.join(args)}] env effs fun v_{t.id} env effs =>\n"
+                        + self.block(rest, k, ctx, ind))
             if isinstance(t, ast.Name):
                 if isinstance(value, ast.Call):
                     d = dotted(value.func)
@@ -513,6 +660,10 @@ class Core:
                 return (pad + f"Py.eff {lean_str('set ' + full)} [{self.expr(value, ctx)}] effs fun effs =>\n"
                         + self.block(rest, k, ctx, ind))
             raise Untranslatable(f"{where()}: assignment target {type(t).__name__}")
+        if isinstance(s, ast.Expr) and self.elem_call(s.value, ctx) is not None:
+            wname, args = self.elem_call(s.value, ctx)
+            return (pad + f"Py.H.call ext {lean_str(wname)} [{', '.join(args)}] env effs fun _ env effs =>\n"
+                    + self.block(rest, k, ctx, ind))
         if isinstance(s, ast.Expr) and isinstance(s.value, ast.Call):
             call = s.value
             d = dotted(call.func) or ast.unparse(call.func)
@@ -537,6 +688,26 @@ class Core:
                 return (pad + f"{P}bind ({self.call_text(tgt, call, ctx)} effs) fun _{benv} effs =>\n"
                         + self.block(rest, k, ctx, ind))
             raise Untranslatable(f"{where()}: call of {d} is neither ignored, an effect, nor a translated method")
+        if isinstance(s, ast.If) and self.first_elem_call(s.test, ctx) is not None:
+            # the call is an opaque call into the world: it is made first (Python evaluates it first), its value is a temporary
+            callnode = self.first_elem_call(s.test, ctx)
+            wname, args = self.elem_call(callnode, ctx)
+            self.jp += 1
+            tmp = f"t_call{self.jp}"
+            class Sub(ast.NodeTransformer):
+                def visit_Call(self2, node):
+                    return ast.copy_location(ast.Name(id=tmp, ctx=ast.Load()), node) if node is callnode else self2.generic_visit(node)
+            import copy
+            test2 = copy.deepcopy(s.test)
+            callnode = self.first_elem_call(test2, ctx)
+            news = ast.If(test=Sub().visit(test2), body=s.body, orelse=s.orelse)
+            ast.copy_location(news, s)
+            ast.fix_missing_locations(news)
+            inner = dict(ctx)
+            inner["temps"] = set(ctx.get("temps", ())) | {tmp}
+            # (ctx is copied shallowly: `tainted` and the locals stay shared)
+            return (pad + f"Py.H.call ext {lean_str(wname)} [{', '.join(args)}] env effs fun {tmp} env effs =>\n"
+                    + self.block([news] + rest, k, inner, ind))
         if isinstance(s, ast.If):
             test = self.expr(s.test, ctx)
             if not rest:
@@ -558,8 +729,9 @@ class Core:
         raise Untranslatable(f"{where()}: statement {type(s).__name__}")
 
     # ---------------------------------------------------------------- functions
-    def translate(self, cls, m, prefix="self"):
-        name = self.lean_name(cls, m, prefix)
+    def translate(self, cls, m, prefix="self", elem_params=None):
+        elem_params = elem_params or {}
+        name = self.lean_name(cls, m, prefix) + "".join(f"__elem_{p}" for p in sorted(elem_params))
         if name in self.emitted:
             return name
         self.emitted[name] = None  # in progress
@@ -571,9 +743,13 @@ class Core:
         for v in self.assigned(f.body):
             if v not in locs:
                 locs.append(v)
-        ctx = {"cls": cls, "m": m, "prefix": prefix, "locals": set(locs), "records": recs}
+        ctx = {"cls": cls, "m": m, "prefix": prefix, "locals": set(locs), "records": recs,
+               "elems": {p: (full, lst, f"idx_{p}") for p, (full, lst) in elem_params.items()}}
+        for node in ast.walk(f):
+            if isinstance(node, ast.Name) and isinstance(node.ctx, ast.Store) and node.id in elem_params:
+                raise Untranslatable(f"{cls}.{m}: the element parameter {node.id} is assigned")
         body = self.block(list(f.body), f"{self.P}ret Py.V.none{self.EV} effs", ctx, 1)
-        sig = " ".join(f"(r_{p} : Py.Env)" if p in recs else f"(v_{p} : Py.V)" for p in params)
+        sig = " ".join(f"(r_{p} : Py.Env)" if p in recs else (f"(idx_{p} : Nat)" if p in elem_params else f"(v_{p} : Py.V)") for p in params)
         unbound = "".join(f"  let v_{v} : Py.V := Py.V.exc \"UnboundLocalError\"\n" for v in locs if v not in params)
         src = self.srcfile[(cls, m)]
         text = (f"/-- `{cls}.{m}` ({src}:{f.lineno}), `self` = `{prefix}` -/\n"
